@@ -13,6 +13,9 @@
         spec fn progresses() -> bool;
         /// the decoder looks only at the bytes it consumes
         spec fn self_delimiting() -> bool;
+        /// `spec_dec` specifies the decoder completely (true for every leaf encoding; false for derive-generated
+        /// struct decoders, whose tag loop is specified only by frame/totality clauses)
+        spec fn functional() -> bool;
 
         //@ fn src:zvt_builder/src/encoding.rs | trait Encoding | encode | sig props=C17,C03
         //@ tag enc.exact C17 C03
@@ -22,9 +25,11 @@
         //@ fn src:zvt_builder/src/encoding.rs | trait Encoding | decode | sig props=C02,C17
             ensures
         //@ tag dec.ok C17 C14
-                Self::spec_dec(bytes@) matches Some((v, k)) ==> (r matches Ok((v2, rest)) && v2 == v && 0 <= k <= bytes@.len() && rest@ =~= bytes@.skip(k)),
+                Self::functional() ==> (Self::spec_dec(bytes@) matches Some((v, k)) ==> (r matches Ok((v2, rest)) && v2 == v && 0 <= k <= bytes@.len() && rest@ =~= bytes@.skip(k))),
         //@ tag dec.err C17 C02
-                Self::spec_dec(bytes@) is None ==> r is Err,
+                (Self::functional() && Self::spec_dec(bytes@) is None) ==> r is Err,
+        //@ tag dec.frame C14
+                r matches Ok((v2, rest)) ==> (rest@.len() <= bytes@.len() && rest@ =~= bytes@.skip(bytes@.len() - rest@.len())),
         //@ tag dec.progress C02
                 Self::progresses() ==> (r matches Ok((v2, rest)) ==> rest@.len() < bytes@.len()),
         //@ end
@@ -40,6 +45,7 @@
             requires Self::self_delimiting(), Self::spec_dec(b) is Some,
             ensures Self::spec_dec(b + s) == Self::spec_dec(b);
         proof fn law_dec_bounds(b: Seq<u8>)
+            requires Self::functional(),
             ensures Self::spec_dec(b) matches Some((v, k)) ==> 0 <= k <= b.len();
         //@ untag
     }
@@ -67,11 +73,12 @@
             } else { Some((Tag(b[0] as u16), 1)) }
         }
         open spec fn progresses() -> bool { true }
-        //@ fn src:zvt_builder/src/encoding.rs | impl encoding::Encoding<Tag> for Default | encode | props=C17,C03
+        //@ fn src:zvt_builder/src/encoding.rs | impl encoding::Encoding<Tag> for Default | encode | props=C17,C03 $M
         //@ end
-        //@ fn src:zvt_builder/src/encoding.rs | impl encoding::Encoding<Tag> for Default | decode | props=C02,C17
+        //@ fn src:zvt_builder/src/encoding.rs | impl encoding::Encoding<Tag> for Default | decode | props=C02,C17 $M
         //@ end
         open spec fn self_delimiting() -> bool { true }
+        open spec fn functional() -> bool { true }
         proof fn law_dec_bounds(b: Seq<u8>) {}
         //@ tag enc.law_dec_frame.tag C14
         proof fn law_dec_frame(b: Seq<u8>, s: Seq<u8>) {
@@ -95,11 +102,12 @@
             if b.len() < 2 { None } else { Some((Tag(be_val2(b.subrange(0, 2)) as u16), 2)) }
         }
         open spec fn progresses() -> bool { true }
-        //@ fn src:zvt_builder/src/encoding.rs | impl encoding::Encoding<Tag> for BigEndian | encode | props=C17,C03
+        //@ fn src:zvt_builder/src/encoding.rs | impl encoding::Encoding<Tag> for BigEndian | encode | props=C17,C03 $M
         //@ end
-        //@ fn src:zvt_builder/src/encoding.rs | impl encoding::Encoding<Tag> for BigEndian | decode | props=C02,C17
+        //@ fn src:zvt_builder/src/encoding.rs | impl encoding::Encoding<Tag> for BigEndian | decode | props=C02,C17 $M
         //@ end
         open spec fn self_delimiting() -> bool { true }
+        open spec fn functional() -> bool { true }
         proof fn law_dec_bounds(b: Seq<u8>) {}
         //@ tag enc.law_dec_frame.tagbe C14
         proof fn law_dec_frame(b: Seq<u8>, s: Seq<u8>) {
@@ -126,11 +134,12 @@
             match E::spec_dec(b) { None => None, Some((v, k)) => Some((Some(v), k)) }
         }
         open spec fn progresses() -> bool { E::progresses() }
-        //@ fn src:zvt_builder/src/encoding.rs | impl Encoding<Option<T>> for E | decode | props=C02,C17
+        //@ fn src:zvt_builder/src/encoding.rs | impl Encoding<Option<T>> for E | decode | props=C02,C17 $M
         //@ end
-        //@ fn src:zvt_builder/src/encoding.rs | impl Encoding<Option<T>> for E | encode | props=C17,C03
+        //@ fn src:zvt_builder/src/encoding.rs | impl Encoding<Option<T>> for E | encode | props=C17,C03 $M
         //@ end
         open spec fn self_delimiting() -> bool { E::self_delimiting() }
+        open spec fn functional() -> bool { E::functional() }
         proof fn law_dec_bounds(b: Seq<u8>) { E::law_dec_bounds(b); }
         //@ tag enc.law_dec_frame.option C14
         proof fn law_dec_frame(b: Seq<u8>, s: Seq<u8>) { E::law_dec_frame(b, s); }
@@ -159,6 +168,7 @@
         //@ fn src:zvt_builder/src/encoding.rs | impl Encoding<Vec<T>> for E | decode | ext props=C02,C17
         //@ end
         open spec fn self_delimiting() -> bool { false }
+        open spec fn functional() -> bool { true }
         proof fn law_dec_bounds(b: Seq<u8>) {}
         proof fn law_dec_frame(b: Seq<u8>, s: Seq<u8>) {}
         proof fn law_inverse(v: &Vec<T>) {}
@@ -182,6 +192,7 @@
         //@ fn src:zvt_builder/src/encoding.rs | impl Encoding<String> for Default | decode | ext props=C02,C17
         //@ end
         open spec fn self_delimiting() -> bool { false }
+        open spec fn functional() -> bool { true }
         proof fn law_dec_bounds(b: Seq<u8>) {}
         proof fn law_dec_frame(b: Seq<u8>, s: Seq<u8>) {}
         #[verifier::external_body]
@@ -203,6 +214,7 @@
         //@ fn src:zvt_builder/src/encoding.rs | impl Encoding<String> for Hex | decode | ext props=C02,C17
         //@ end
         open spec fn self_delimiting() -> bool { false }
+        open spec fn functional() -> bool { true }
         proof fn law_dec_bounds(b: Seq<u8>) {}
         proof fn law_dec_frame(b: Seq<u8>, s: Seq<u8>) {}
         #[verifier::external_body]
@@ -214,71 +226,176 @@
         open spec fn ser_pre(&self, tag: Option<Tag>) -> bool { default_ser_pre::<Self, L, E, TE>(self, tag) }
         open spec fn spec_ser_tagged(&self, tag: Option<Tag>) -> Seq<u8> { default_spec_ser::<Self, L, E, TE>(self, tag) }
         open spec fn deser_pre(tag: Option<Tag>) -> bool { L::wf() }
+        open spec fn functional() -> bool { E::functional() && TE::functional() }
         open spec fn deser_progresses(tag: Option<Tag>) -> bool { tag is Some && TE::progresses() }
         open spec fn deser_defined(b: Seq<u8>, tag: Option<Tag>) -> bool { default_spec_deser::<Self, L, E, TE>(b, tag) is Some }
         open spec fn deser_ok(b: Seq<u8>, tag: Option<Tag>, v: Self, k: int) -> bool { default_spec_deser::<Self, L, E, TE>(b, tag) == Some((v, k)) }
-        //@ fn src:zvt_builder/src/lib.rs | trait ZvtSerializerImpl | serialize_tagged | props=C03,C01
+        //@ fn src:zvt_builder/src/lib.rs | trait ZvtSerializerImpl | serialize_tagged | props=C03,C01 $M
         //@ end
-        //@ fn src:zvt_builder/src/lib.rs | trait ZvtSerializerImpl | deserialize_tagged | props=C02,C14
+        //@ fn src:zvt_builder/src/lib.rs | trait ZvtSerializerImpl | deserialize_tagged | props=C02,C14 $M
         //@ end
     }
     impl<L: length::Length, E: encoding::Encoding<u16>, TE: encoding::Encoding<Tag>> ZvtSerializerImpl<L, E, TE> for u16 {
         open spec fn ser_pre(&self, tag: Option<Tag>) -> bool { default_ser_pre::<Self, L, E, TE>(self, tag) }
         open spec fn spec_ser_tagged(&self, tag: Option<Tag>) -> Seq<u8> { default_spec_ser::<Self, L, E, TE>(self, tag) }
         open spec fn deser_pre(tag: Option<Tag>) -> bool { L::wf() }
+        open spec fn functional() -> bool { E::functional() && TE::functional() }
         open spec fn deser_progresses(tag: Option<Tag>) -> bool { tag is Some && TE::progresses() }
         open spec fn deser_defined(b: Seq<u8>, tag: Option<Tag>) -> bool { default_spec_deser::<Self, L, E, TE>(b, tag) is Some }
         open spec fn deser_ok(b: Seq<u8>, tag: Option<Tag>, v: Self, k: int) -> bool { default_spec_deser::<Self, L, E, TE>(b, tag) == Some((v, k)) }
-        //@ fn src:zvt_builder/src/lib.rs | trait ZvtSerializerImpl | serialize_tagged | props=C03,C01
+        //@ fn src:zvt_builder/src/lib.rs | trait ZvtSerializerImpl | serialize_tagged | props=C03,C01 $M
         //@ end
-        //@ fn src:zvt_builder/src/lib.rs | trait ZvtSerializerImpl | deserialize_tagged | props=C02,C14
+        //@ fn src:zvt_builder/src/lib.rs | trait ZvtSerializerImpl | deserialize_tagged | props=C02,C14 $M
         //@ end
     }
     impl<L: length::Length, E: encoding::Encoding<u32>, TE: encoding::Encoding<Tag>> ZvtSerializerImpl<L, E, TE> for u32 {
         open spec fn ser_pre(&self, tag: Option<Tag>) -> bool { default_ser_pre::<Self, L, E, TE>(self, tag) }
         open spec fn spec_ser_tagged(&self, tag: Option<Tag>) -> Seq<u8> { default_spec_ser::<Self, L, E, TE>(self, tag) }
         open spec fn deser_pre(tag: Option<Tag>) -> bool { L::wf() }
+        open spec fn functional() -> bool { E::functional() && TE::functional() }
         open spec fn deser_progresses(tag: Option<Tag>) -> bool { tag is Some && TE::progresses() }
         open spec fn deser_defined(b: Seq<u8>, tag: Option<Tag>) -> bool { default_spec_deser::<Self, L, E, TE>(b, tag) is Some }
         open spec fn deser_ok(b: Seq<u8>, tag: Option<Tag>, v: Self, k: int) -> bool { default_spec_deser::<Self, L, E, TE>(b, tag) == Some((v, k)) }
-        //@ fn src:zvt_builder/src/lib.rs | trait ZvtSerializerImpl | serialize_tagged | props=C03,C01
+        //@ fn src:zvt_builder/src/lib.rs | trait ZvtSerializerImpl | serialize_tagged | props=C03,C01 $M
         //@ end
-        //@ fn src:zvt_builder/src/lib.rs | trait ZvtSerializerImpl | deserialize_tagged | props=C02,C14
+        //@ fn src:zvt_builder/src/lib.rs | trait ZvtSerializerImpl | deserialize_tagged | props=C02,C14 $M
         //@ end
     }
     impl<L: length::Length, E: encoding::Encoding<u64>, TE: encoding::Encoding<Tag>> ZvtSerializerImpl<L, E, TE> for u64 {
         open spec fn ser_pre(&self, tag: Option<Tag>) -> bool { default_ser_pre::<Self, L, E, TE>(self, tag) }
         open spec fn spec_ser_tagged(&self, tag: Option<Tag>) -> Seq<u8> { default_spec_ser::<Self, L, E, TE>(self, tag) }
         open spec fn deser_pre(tag: Option<Tag>) -> bool { L::wf() }
+        open spec fn functional() -> bool { E::functional() && TE::functional() }
         open spec fn deser_progresses(tag: Option<Tag>) -> bool { tag is Some && TE::progresses() }
         open spec fn deser_defined(b: Seq<u8>, tag: Option<Tag>) -> bool { default_spec_deser::<Self, L, E, TE>(b, tag) is Some }
         open spec fn deser_ok(b: Seq<u8>, tag: Option<Tag>, v: Self, k: int) -> bool { default_spec_deser::<Self, L, E, TE>(b, tag) == Some((v, k)) }
-        //@ fn src:zvt_builder/src/lib.rs | trait ZvtSerializerImpl | serialize_tagged | props=C03,C01
+        //@ fn src:zvt_builder/src/lib.rs | trait ZvtSerializerImpl | serialize_tagged | props=C03,C01 $M
         //@ end
-        //@ fn src:zvt_builder/src/lib.rs | trait ZvtSerializerImpl | deserialize_tagged | props=C02,C14
+        //@ fn src:zvt_builder/src/lib.rs | trait ZvtSerializerImpl | deserialize_tagged | props=C02,C14 $M
         //@ end
     }
     impl<L: length::Length, E: encoding::Encoding<usize>, TE: encoding::Encoding<Tag>> ZvtSerializerImpl<L, E, TE> for usize {
         open spec fn ser_pre(&self, tag: Option<Tag>) -> bool { default_ser_pre::<Self, L, E, TE>(self, tag) }
         open spec fn spec_ser_tagged(&self, tag: Option<Tag>) -> Seq<u8> { default_spec_ser::<Self, L, E, TE>(self, tag) }
         open spec fn deser_pre(tag: Option<Tag>) -> bool { L::wf() }
+        open spec fn functional() -> bool { E::functional() && TE::functional() }
         open spec fn deser_progresses(tag: Option<Tag>) -> bool { tag is Some && TE::progresses() }
         open spec fn deser_defined(b: Seq<u8>, tag: Option<Tag>) -> bool { default_spec_deser::<Self, L, E, TE>(b, tag) is Some }
         open spec fn deser_ok(b: Seq<u8>, tag: Option<Tag>, v: Self, k: int) -> bool { default_spec_deser::<Self, L, E, TE>(b, tag) == Some((v, k)) }
-        //@ fn src:zvt_builder/src/lib.rs | trait ZvtSerializerImpl | serialize_tagged | props=C03,C01
+        //@ fn src:zvt_builder/src/lib.rs | trait ZvtSerializerImpl | serialize_tagged | props=C03,C01 $M
         //@ end
-        //@ fn src:zvt_builder/src/lib.rs | trait ZvtSerializerImpl | deserialize_tagged | props=C02,C14
+        //@ fn src:zvt_builder/src/lib.rs | trait ZvtSerializerImpl | deserialize_tagged | props=C02,C14 $M
         //@ end
     }
     impl<L: length::Length, E: encoding::Encoding<String>, TE: encoding::Encoding<Tag>> ZvtSerializerImpl<L, E, TE> for String {
         open spec fn ser_pre(&self, tag: Option<Tag>) -> bool { default_ser_pre::<Self, L, E, TE>(self, tag) }
         open spec fn spec_ser_tagged(&self, tag: Option<Tag>) -> Seq<u8> { default_spec_ser::<Self, L, E, TE>(self, tag) }
         open spec fn deser_pre(tag: Option<Tag>) -> bool { L::wf() }
+        open spec fn functional() -> bool { E::functional() && TE::functional() }
         open spec fn deser_progresses(tag: Option<Tag>) -> bool { tag is Some && TE::progresses() }
         open spec fn deser_defined(b: Seq<u8>, tag: Option<Tag>) -> bool { default_spec_deser::<Self, L, E, TE>(b, tag) is Some }
         open spec fn deser_ok(b: Seq<u8>, tag: Option<Tag>, v: Self, k: int) -> bool { default_spec_deser::<Self, L, E, TE>(b, tag) == Some((v, k)) }
-        //@ fn src:zvt_builder/src/lib.rs | trait ZvtSerializerImpl | serialize_tagged | props=C03,C01
+        //@ fn src:zvt_builder/src/lib.rs | trait ZvtSerializerImpl | serialize_tagged | props=C03,C01 $M
         //@ end
-        //@ fn src:zvt_builder/src/lib.rs | trait ZvtSerializerImpl | deserialize_tagged | props=C02,C14
+        //@ fn src:zvt_builder/src/lib.rs | trait ZvtSerializerImpl | deserialize_tagged | props=C02,C14 $M
+        //@ end
+    }
+
+    // ------------------------------------------------------------------ UTF-8 text (receipt printout): String::from_utf8 / as_bytes — trusted, T3
+    //@ item src:zvt_builder/src/encoding.rs | struct Utf8
+    pub uninterp spec fn utf8_enc(v: &String) -> Seq<u8>;
+    pub uninterp spec fn utf8_dec(b: Seq<u8>) -> Option<String>;
+    pub assume_specification [String::as_bytes] (s: &String) -> (r: &[u8])
+        ensures r@ == utf8_enc(s);
+    #[verifier::external_type_specification]
+    #[verifier::external_body]
+    pub struct ExFromUtf8Error(alloc::string::FromUtf8Error);
+    pub assume_specification [String::from_utf8] (v: Vec<u8>) -> (r: core::result::Result<String, alloc::string::FromUtf8Error>)
+        ensures r matches Ok(s) ==> utf8_dec(v@) == Some(s), r is Err ==> utf8_dec(v@) is None;
+    impl Encoding<String> for Utf8 {
+        open spec fn enc_ok(v: &String) -> bool { true }
+        open spec fn canon(v: &String) -> bool { true }
+        open spec fn spec_enc(v: &String) -> Seq<u8> { utf8_enc(v) }
+        /// valid UTF-8 => the text, consuming everything; otherwise an error
+        open spec fn spec_dec(b: Seq<u8>) -> Option<(String, int)> { match utf8_dec(b) { Some(s) => Some((s, b.len() as int)), None => None } }
+        open spec fn progresses() -> bool { false }
+        open spec fn self_delimiting() -> bool { false }
+        open spec fn functional() -> bool { true }
+        //@ fn src:zvt_builder/src/encoding.rs | impl Encoding<String> for Utf8 | encode | props=C17,C01 $M
+        //@ end
+        //@ fn src:zvt_builder/src/encoding.rs | impl Encoding<String> for Utf8 | decode | props=C02,C17 $M
+        //@ end
+        proof fn law_dec_bounds(b: Seq<u8>) {}
+        proof fn law_dec_frame(b: Seq<u8>, s: Seq<u8>) {}
+        #[verifier::external_body]
+        proof fn law_inverse(v: &String) {}
+    }
+
+    // ------------------------------------------------------------------ date/time (chrono: external crate, T4: constructors total, accessors in range)
+    #[verifier::external_body]
+    pub struct NaiveDate { _p: u8 }
+    #[verifier::external_body]
+    pub struct NaiveDateTime { _p: u8 }
+    impl NaiveDate {
+        pub uninterp spec fn ymd_valid(y: i32, m: u32, d: u32) -> bool;
+        /// `None` for dates that do not exist
+        #[verifier::external_body]
+        pub fn from_ymd_opt(year: i32, month: u32, day: u32) -> (r: Option<NaiveDate>) { unimplemented!() }
+        #[verifier::external_body]
+        pub fn and_hms_opt(&self, hour: u32, min: u32, sec: u32) -> (r: Option<NaiveDateTime>) { unimplemented!() }
+    }
+    impl NaiveDateTime {
+        // chrono::Datelike / chrono::Timelike accessors (documented ranges)
+        #[verifier::external_body]
+        pub fn year(&self) -> (r: i32) ensures -262144 <= r <= 262143 { unimplemented!() }
+        #[verifier::external_body]
+        pub fn month(&self) -> (r: u32) ensures 1 <= r <= 12 { unimplemented!() }
+        #[verifier::external_body]
+        pub fn day(&self) -> (r: u32) ensures 1 <= r <= 31 { unimplemented!() }
+        #[verifier::external_body]
+        pub fn hour(&self) -> (r: u32) ensures r <= 23 { unimplemented!() }
+        #[verifier::external_body]
+        pub fn minute(&self) -> (r: u32) ensures r <= 59 { unimplemented!() }
+        #[verifier::external_body]
+        pub fn second(&self) -> (r: u32) ensures r <= 59 { unimplemented!() }
+    }
+    pub uninterp spec fn datetime_enc(v: &NaiveDateTime) -> Seq<u8>;
+    pub uninterp spec fn datetime_dec(b: Seq<u8>) -> Option<(NaiveDateTime, int)>;
+    impl Encoding<NaiveDateTime> for Default {
+        /// year 0..=9999 (four BCD digits)
+        uninterp spec fn enc_ok(v: &NaiveDateTime) -> bool;
+        open spec fn canon(v: &NaiveDateTime) -> bool { false }
+        open spec fn spec_enc(v: &NaiveDateTime) -> Seq<u8> { datetime_enc(v) }
+        open spec fn spec_dec(b: Seq<u8>) -> Option<(NaiveDateTime, int)> { datetime_dec(b) }
+        open spec fn progresses() -> bool { false }
+        open spec fn self_delimiting() -> bool { false }
+        /// only totality and the frame clause are proved for the date decoder
+        open spec fn functional() -> bool { false }
+        //@ fn src:zvt_builder/src/encoding.rs | impl Encoding<NaiveDateTime> for Default | encode | ext
+        //@ end
+        //@ fn src:zvt_builder/src/encoding.rs | impl Encoding<NaiveDateTime> for Default | decode | all-loops props=C02 $M
+        //@ loop 0
+                invariant
+                    data@.len() <= data0.len() && data@ =~= data0.skip(data0.len() - data@.len()),
+                decreases data@.len(),
+        //@ entry
+            let ghost data0 = data@;
+        //@ end
+        proof fn law_dec_bounds(b: Seq<u8>) {}
+        proof fn law_dec_frame(b: Seq<u8>, s: Seq<u8>) {}
+        proof fn law_inverse(v: &NaiveDateTime) {}
+    }
+    //@ include ../prelude/tagset.rs
+    impl<L: length::Length, E: encoding::Encoding<NaiveDateTime>, TE: encoding::Encoding<Tag>> ZvtSerializerImpl<L, E, TE> for NaiveDateTime {
+        open spec fn ser_pre(&self, tag: Option<Tag>) -> bool { default_ser_pre::<Self, L, E, TE>(self, tag) }
+        open spec fn spec_ser_tagged(&self, tag: Option<Tag>) -> Seq<u8> { default_spec_ser::<Self, L, E, TE>(self, tag) }
+        open spec fn deser_pre(tag: Option<Tag>) -> bool { L::wf() }
+        open spec fn functional() -> bool { E::functional() && TE::functional() }
+        open spec fn deser_progresses(tag: Option<Tag>) -> bool { tag is Some && TE::progresses() }
+        open spec fn deser_defined(b: Seq<u8>, tag: Option<Tag>) -> bool { default_spec_deser::<Self, L, E, TE>(b, tag) is Some }
+        open spec fn deser_ok(b: Seq<u8>, tag: Option<Tag>, v: Self, k: int) -> bool { default_spec_deser::<Self, L, E, TE>(b, tag) == Some((v, k)) }
+        //@ fn src:zvt_builder/src/lib.rs | trait ZvtSerializerImpl | serialize_tagged | props=C03,C01 $M
+        //@ end
+        //@ fn src:zvt_builder/src/lib.rs | trait ZvtSerializerImpl | deserialize_tagged | props=C02,C14 $M
         //@ end
     }
